@@ -337,8 +337,10 @@ def runner_ties(chk, searched="scripted call sequences (random, abort sentinels 
     Runner.run given those two (PyIRL), and the state operations they all use: emit, check_abort, record_failure (PyIRE).  All four
     are regenerated and re-proved (concurrently) for each runner property."""
     from concurrent.futures import ThreadPoolExecutor
-    with ThreadPoolExecutor(max_workers=4) as ex:
-        futs = [(name, ex.submit(fn, chk)) for name, fn in (("failure", failure_tie), ("sleep", sleep_tie), ("loop", loop_tie), ("state", state_tie))]
+    with ThreadPoolExecutor(max_workers=5) as ex:
+        # (the delegating layers too: the scripts reach the loop through RetryPolicy, the context managers, the decorator and from_config)
+        futs = [(name, ex.submit(fn, chk)) for name, fn in (("failure", failure_tie), ("sleep", sleep_tie), ("loop", loop_tie), ("state", state_tie),
+                                                            ("sugar", sugar_tie))]
         ties = [(name, f.result()) for name, f in futs]
     for name, tie in ties:
         report(chk, tie, name, searched)
